@@ -1,8 +1,518 @@
-import YouVerif.C04.Model
+/-
+C04 — "Sortition selects exactly the binomial quantile and its proofs bind all inputs".
+
+Property theorems over the executable model `YouVerif.C04.Model` (the model the driver `drv_c04` runs against the real
+Go code on every check). Float64 values are bit patterns of finite non-negative doubles (`F64 = Nat`, numeric order =
+order of the bits). gonum's `distuv.Binomial.CDF` is the parameter `cdf`; the VRF and Keccak-256 are parameters with
+explicit hypotheses. Nothing here is `decide`d over samples except inside `example`s, which are labelled tests.
+-/
+import YouVerif.C04.Proofs
 namespace YouVerif.C04.Props
 open YouVerif.C04
 
-/-- bring-up placeholder: replaced by the real property theorems -/
-theorem search_le (n : Nat) (f : Nat → Bool) : search n f = searchLoop f n 0 n := rfl
+/-! ## 1. `search` -/
+
+/-- `search` on ANY predicate (monotone or not) returns a boundary: inside `[0,n]`, false just below, true at it.
+    This is the implementation-level oracle `isMatch(j) ∧ ¬isMatch(j−1)`, proved for all inputs. -/
+theorem search_boundary (n : Nat) (f : Nat → Bool) :
+    search n f ≤ n ∧ (0 < search n f → f (search n f - 1) = false) ∧ (search n f < n → f (search n f) = true) :=
+  search_boundary_aux n f
+
+/-- For a predicate that is monotone on `[0,n)` and taken as true at `n` (the code never probes `n`),
+    `search` returns the LEAST true index. -/
+theorem search_least (n : Nat) (f : Nat → Bool)
+    (mono : ∀ a b, a ≤ b → b < n → f a = true → f b = true) :
+    search n f ≤ n ∧ (search n f < n → f (search n f) = true) ∧ ∀ k, k < search n f → f k = false :=
+  ⟨(search_boundary n f).1, (search_boundary n f).2.2, search_least_aux n f mono⟩
+
+/-- test: hypotheses are satisfiable, result is the first `true` -/
+example : search 6 (fun k => decide (4 ≤ k)) = 4 := by decide
+/-- test: a non-monotone table still yields a boundary (here index 2), not the least true index (0) -/
+example : search 4 (fun k => k == 0 || k == 2 || k == 3) = 2 := by decide
+
+/-- the forward scan returns the least matching index in `[0,n]`, or `n` when nothing matches -/
+theorem scan_least (n : Nat) (f : Nat → Bool) :
+    scan n f ≤ n ∧ (∀ k, k < scan n f → f k = false) ∧
+    (f (scan n f) = true ∨ (scan n f = n ∧ ∀ k, k ≤ n → f k = false)) :=
+  scan_spec n f
+
+/-! ## 2. `choose` = the quantile -/
+
+/-- `j` is the `t`-quantile of the CDF `F` on `[0,w]`: the smallest `j` with `t ≤ F j`. -/
+def IsQuantile (F : Nat → F64) (t : F64) (w j : Nat) : Prop :=
+  j ≤ w ∧ t ≤ F j ∧ ∀ k, k < j → F k < t
+
+theorem quantile_unique {F : Nat → F64} {t : F64} {w j j' : Nat}
+    (h : IsQuantile F t w j) (h' : IsQuantile F t w j') : j = j' := by
+  obtain ⟨_, h2, h3⟩ := h
+  obtain ⟨_, h2', h3'⟩ := h'
+  by_cases hlt : j < j'
+  · have := h3' j hlt; fomega
+  · by_cases hgt : j' < j
+    · have := h3 j' hgt; fomega
+    · omega
+
+/-- What the decision logic needs from the numerics (hypotheses about gonum's float CDF; sampled by the harness, not proved):
+    the CDF with parameter `p` is monotone and reaches the target at `w`; above the 0.99 cut-over the mirrored
+    comparison `1-target < F_{1-p}(k)` agrees with the direct one `F_p(w-1-k) < target`; and at hash `2^256-1` no
+    smaller index reaches the target (true of the exact CDF iff `p > 0`). -/
+structure CdfOk (cdf : F64 → Nat → F64) (hb w : Nat) (p : F64) : Prop where
+  mono : ∀ a b, a ≤ b → b ≤ w → cdf p a ≤ cdf p b
+  top : targetOf hb ≤ cdf p w
+  mirror : f64_099 < targetOf hb → ∀ k, k < w →
+    (invOf hb < cdf (f64OneMinus p) k ↔ cdf p (w - 1 - k) < targetOf hb)
+  topEnd : hb = maxHash → ∀ k, k < w → cdf p k < targetOf hb
+
+/-- **choose is exactly the quantile**, in every branch (exact ends, mirrored upper tail, forward scan, binary search):
+    outside the crash guard (`p > 1`, where gonum panics) the result is the smallest `j ∈ [0, stake]` whose CDF
+    reaches `target = float64(hash / (2^256-1))`. -/
+theorem choose_is_quantile (cdf : F64 → Nat → F64) (hb w : Nat) (p : F64)
+    (hok : CdfOk cdf hb w p) (hdom : ¬ (f64One < p ∧ 0 < w)) :
+    ∃ j, choose cdf hb w p = .ok j ∧ IsQuantile (cdf p) (targetOf hb) w j := by
+  rcases chooseBranch_cases hb w p with ⟨h1, hbr⟩ | ⟨_, h0, hbr⟩ | ⟨_, _, hc, _⟩ | ⟨_, _, _, h99, hbr⟩ |
+      ⟨_, _, _, _, _, hbr⟩ | ⟨_, _, _, _, _, hbr⟩
+  · -- hash = 2^256-1
+    refine ⟨w, by simp only [choose, hbr], Nat.le_refl _, hok.top, fun k hk => hok.topEnd h1 k hk⟩
+  · -- hash = 0
+    refine ⟨0, by simp only [choose, hbr], Nat.zero_le _, ?_, fun k hk => absurd hk (Nat.not_lt_zero k)⟩
+    subst h0
+    simp [targetOf]
+  · exact absurd hc hdom
+  · -- mirrored upper tail
+    refine ⟨w - search w (fun h => decide (invOf hb < cdf (f64OneMinus p) h)), by simp only [choose, hbr],
+      Nat.sub_le _ _, ?_, ?_⟩
+    · -- target ≤ F (w - k)
+      have hb' := search_boundary w (fun h => decide (invOf hb < cdf (f64OneMinus p) h))
+      by_cases hk0 : search w (fun h => decide (invOf hb < cdf (f64OneMinus p) h)) = 0
+      · rw [hk0]; exact hok.top
+      · have hpos : 0 < search w (fun h => decide (invOf hb < cdf (f64OneMinus p) h)) := by omega
+        have hf := hb'.2.1 hpos
+        have hnot : ¬ invOf hb < cdf (f64OneMinus p) (search w (fun h => decide (invOf hb < cdf (f64OneMinus p) h)) - 1) := by
+          simpa using hf
+        have hm := hok.mirror h99 (search w (fun h => decide (invOf hb < cdf (f64OneMinus p) h)) - 1) (by omega)
+        have : ¬ cdf p (w - 1 - (search w (fun h => decide (invOf hb < cdf (f64OneMinus p) h)) - 1)) < targetOf hb :=
+          fun h => hnot (hm.mpr h)
+        have e : w - 1 - (search w (fun h => decide (invOf hb < cdf (f64OneMinus p) h)) - 1)
+            = w - search w (fun h => decide (invOf hb < cdf (f64OneMinus p) h)) := by omega
+        rw [e] at this
+        fomega
+    · -- everything below w - k is below the target
+      intro i hi
+      have hb' := search_boundary w (fun h => decide (invOf hb < cdf (f64OneMinus p) h))
+      have hklt : search w (fun h => decide (invOf hb < cdf (f64OneMinus p) h)) < w := by omega
+      have hf := hb'.2.2 hklt
+      have hin : invOf hb < cdf (f64OneMinus p) (search w (fun h => decide (invOf hb < cdf (f64OneMinus p) h))) := by
+        simpa using hf
+      have hm := (hok.mirror h99 _ hklt).mp hin
+      have := hok.mono i (w - 1 - search w (fun h => decide (invOf hb < cdf (f64OneMinus p) h))) (by omega) (by omega)
+      fomega
+  · -- forward scan
+    have hs := scan_least w (fun h => decide (targetOf hb ≤ cdf p h))
+    refine ⟨scan w (fun h => decide (targetOf hb ≤ cdf p h)), by simp only [choose, hbr], hs.1, ?_, ?_⟩
+    · rcases hs.2.2 with h | ⟨_, hall⟩
+      · simpa using h
+      · have := hall w (Nat.le_refl _)
+        have hn : ¬ targetOf hb ≤ cdf p w := by simpa using this
+        exact absurd hok.top hn
+    · intro k hk
+      have := hs.2.1 k hk
+      have hn : ¬ targetOf hb ≤ cdf p k := by simpa using this
+      fomega
+  · -- binary search
+    have hmono : ∀ a b, a ≤ b → b < w → (fun h => decide (targetOf hb ≤ cdf p h)) a = true →
+        (fun h => decide (targetOf hb ≤ cdf p h)) b = true := by
+      intro a b hab hbw ha
+      have ha' : targetOf hb ≤ cdf p a := by simpa using ha
+      have := hok.mono a b hab (by omega)
+      simp only [decide_eq_true_eq]
+      fomega
+    have hs := search_least w (fun h => decide (targetOf hb ≤ cdf p h)) hmono
+    refine ⟨search w (fun h => decide (targetOf hb ≤ cdf p h)), by simp only [choose, hbr], hs.1, ?_, ?_⟩
+    · by_cases hlt : search w (fun h => decide (targetOf hb ≤ cdf p h)) < w
+      · simpa using hs.2.1 hlt
+      · have : search w (fun h => decide (targetOf hb ≤ cdf p h)) = w := by omega
+        rw [this]; exact hok.top
+    · intro k hk
+      have := hs.2.2 k hk
+      have hn : ¬ targetOf hb ≤ cdf p k := by simpa using this
+      fomega
+
+/-- The mirrored branch returns the same `j` as the direct definition (binary search on `target ≤ F_p`). -/
+theorem choose_mirror_agrees (cdf : F64 → Nat → F64) (hb w : Nat) (p : F64)
+    (hok : CdfOk cdf hb w p) (h99 : f64_099 < targetOf hb) (hne : hb ≠ maxHash) (hpos : 0 < hb)
+    (hdom : ¬ (f64One < p ∧ 0 < w)) :
+    w - search w (fun h => decide (invOf hb < cdf (f64OneMinus p) h))
+      = search w (fun h => decide (targetOf hb ≤ cdf p h)) := by
+  -- left side is the quantile by `choose_is_quantile`, right side is the quantile by `search_least`
+  obtain ⟨j, hj, hq⟩ := choose_is_quantile cdf hb w p hok hdom
+  have hbr : chooseBranch hb w p = .mirror := by
+    rcases chooseBranch_cases hb w p with ⟨h1, _⟩ | ⟨_, h0, _⟩ | ⟨_, _, hc, _⟩ | ⟨_, _, _, _, hbr⟩ |
+        ⟨_, _, _, hn, _⟩ | ⟨_, _, _, hn, _⟩
+    · exact absurd h1 hne
+    · omega
+    · exact absurd hc hdom
+    · exact hbr
+    · exact absurd h99 hn
+    · exact absurd h99 hn
+  simp only [choose, hbr] at hj
+  injection hj with hj
+  have hmono : ∀ a b, a ≤ b → b < w → (fun h => decide (targetOf hb ≤ cdf p h)) a = true →
+      (fun h => decide (targetOf hb ≤ cdf p h)) b = true := by
+    intro a b hab hbw ha
+    have ha' : targetOf hb ≤ cdf p a := by simpa using ha
+    have := hok.mono a b hab (by omega)
+    simp only [decide_eq_true_eq]
+    fomega
+  have hs := search_least w (fun h => decide (targetOf hb ≤ cdf p h)) hmono
+  have hq' : IsQuantile (cdf p) (targetOf hb) w (search w (fun h => decide (targetOf hb ≤ cdf p h))) := by
+    refine ⟨hs.1, ?_, ?_⟩
+    · by_cases hlt : search w (fun h => decide (targetOf hb ≤ cdf p h)) < w
+      · simpa using hs.2.1 hlt
+      · have : search w (fun h => decide (targetOf hb ≤ cdf p h)) = w := by omega
+        rw [this]; exact hok.top
+    · intro k hk
+      have := hs.2.2 k hk
+      have hn : ¬ targetOf hb ≤ cdf p k := by simpa using this
+      fomega
+  rw [hj]
+  exact quantile_unique hq hq'
+
+/-- The two exact ends, for every CDF and every `p` (no hypothesis). -/
+theorem choose_ends (cdf : F64 → Nat → F64) (w : Nat) (p : F64) :
+    choose cdf maxHash w p = .ok w ∧ choose cdf 0 w p = .ok 0 := by
+  constructor
+  · rcases chooseBranch_cases maxHash w p with ⟨_, hbr⟩ | ⟨h, _⟩ | ⟨h, _⟩ | ⟨h, _⟩ | ⟨h, _⟩ | ⟨h, _⟩
+    · simp only [choose, hbr]
+    all_goals exact absurd rfl h
+  · rcases chooseBranch_cases 0 w p with ⟨h, _⟩ | ⟨_, _, hbr⟩ | ⟨_, h, _⟩ | ⟨_, h, _⟩ | ⟨_, h, _⟩ | ⟨_, h, _⟩
+    · exact absurd h (by decide)
+    · simp only [choose, hbr]
+    all_goals exact absurd h (Nat.lt_irrefl 0)
+
+/-- "always between 0 and its stake": for EVERY cdf (monotone or garbage), every hash and every `p`. -/
+theorem choose_range (cdf : F64 → Nat → F64) (hb w : Nat) (p : F64) (j : Nat)
+    (h : choose cdf hb w p = .ok j) : j ≤ w := by
+  rcases chooseBranch_cases hb w p with ⟨_, hbr⟩ | ⟨_, _, hbr⟩ | ⟨_, _, _, hbr⟩ | ⟨_, _, _, _, hbr⟩ |
+      ⟨_, _, _, _, _, hbr⟩ | ⟨_, _, _, _, _, hbr⟩
+  all_goals simp only [choose, hbr] at h
+  · injection h with h; omega
+  · injection h with h; omega
+  · exact absurd h (by simp)
+  · injection h with h; omega
+  · injection h with h
+    have := (scan_least w (fun h => decide (targetOf hb ≤ cdf p h))).1
+    omega
+  · injection h with h
+    have := (search_boundary w (fun h => decide (targetOf hb ≤ cdf p h))).1
+    omega
+
+/-- `uint32(j)` never truncates for stakes below 2^32 (the property's range is stake ≤ 10^7). -/
+theorem seats_fit_uint32 (cdf : F64 → Nat → F64) (hb w : Nat) (p : F64) (j : Nat)
+    (hw : w < 2 ^ 32) (h : choose cdf hb w p = .ok j) : j % 2 ^ 32 = j :=
+  Nat.mod_eq_of_lt (Nat.lt_of_le_of_lt (choose_range cdf hb w p j h) hw)
+
+/-- `choose` crashes (gonum panic) exactly when `p > 1` with a positive stake and a hash strictly between the ends:
+    the guard `threshold ≤ totalStake` of the other theorems. -/
+theorem choose_crash_iff (cdf : F64 → Nat → F64) (hb w : Nat) (p : F64) :
+    choose cdf hb w p = .crash ↔ (hb ≠ maxHash ∧ 0 < hb ∧ f64One < p ∧ 0 < w) := by
+  rcases chooseBranch_cases hb w p with ⟨h1, hbr⟩ | ⟨_, h0, hbr⟩ | ⟨h1, h2, hc, hbr⟩ | ⟨_, _, hc, _, hbr⟩ |
+      ⟨_, _, hc, _, _, hbr⟩ | ⟨_, _, hc, _, _, hbr⟩
+  all_goals simp only [choose, hbr]
+  · constructor
+    · intro h; exact absurd h (by simp)
+    · intro h; exact absurd h1 h.1
+  · constructor
+    · intro h; exact absurd h (by simp)
+    · intro h; omega
+  · constructor
+    · intro _; exact ⟨h1, h2, hc.1, hc.2⟩
+    · intro _; trivial
+  all_goals
+    constructor
+    · intro h; exact absurd h (by simp)
+    · intro h; exact absurd ⟨h.2.2.1, h.2.2.2⟩ hc
+
+/-- The driver's evaluation over the finitely many CDF values received from the harness equals `choose` over
+    any total CDF that extends them (so the correspondence check really runs `choose`). -/
+theorem chooseP_sound (look : F64 → Nat → Option F64) (cdf : F64 → Nat → F64)
+    (hext : ∀ P k v, look P k = some v → cdf P k = v) (hb w : Nat) (p : F64) (r : Res)
+    (h : chooseP look hb w p = .ok r) : choose cdf hb w p = r := by
+  unfold chooseP at h
+  unfold choose
+  cases hbr : chooseBranch hb w p <;> simp only [hbr] at h ⊢
+  · injection h
+  · injection h
+  · injection h
+  · -- mirror
+    cases hs : searchP w (fun h => (look (f64OneMinus p) h).map (fun v => decide (invOf hb < v))) with
+    | error k => simp [hs] at h
+    | ok k =>
+      simp only [hs] at h
+      have := searchLoopP_sound _ (fun h => decide (invOf hb < cdf (f64OneMinus p) h))
+        (by
+          intro k b hk
+          cases hl : look (f64OneMinus p) k with
+          | none => simp [hl] at hk
+          | some v =>
+            simp only [hl, Option.map_some, Option.some.injEq] at hk
+            rw [hext _ _ _ hl]; exact hk) w 0 w k hs
+      unfold search
+      rw [this]
+      injection h
+  · -- scan
+    cases hs : scanP w (fun h => (look p h).map (fun v => decide (targetOf hb ≤ v))) with
+    | error k => simp [hs] at h
+    | ok k =>
+      simp only [hs] at h
+      have := scanLoopP_sound _ (fun h => decide (targetOf hb ≤ cdf p h)) w
+        (by
+          intro k b hk
+          cases hl : look p k with
+          | none => simp [hl] at hk
+          | some v =>
+            simp only [hl, Option.map_some, Option.some.injEq] at hk
+            rw [hext _ _ _ hl]; exact hk) (w + 1) 0 k hs
+      unfold scan
+      rw [this]
+      injection h
+  · -- search
+    cases hs : searchP w (fun h => (look p h).map (fun v => decide (targetOf hb ≤ v))) with
+    | error k => simp [hs] at h
+    | ok k =>
+      simp only [hs] at h
+      have := searchLoopP_sound _ (fun h => decide (targetOf hb ≤ cdf p h))
+        (by
+          intro k b hk
+          cases hl : look p k with
+          | none => simp [hl] at hk
+          | some v =>
+            simp only [hl, Option.map_some, Option.some.injEq] at hk
+            rw [hext _ _ _ hl]; exact hk) w 0 w k hs
+      unfold search
+      rw [this]
+      injection h
+
+/-! ## 3. the VRF message -/
+
+/-- `MakeM` is injective on (32-byte seed, uint32 role, uint32 index): the message determines all three. -/
+theorem makeM_injective (seed seed' : List UInt8) (role role' index index' : Nat)
+    (hs : seed.length = 32) (hs' : seed'.length = 32)
+    (hr : role < 2 ^ 32) (hr' : role' < 2 ^ 32) (hi : index < 2 ^ 32) (hi' : index' < 2 ^ 32)
+    (h : makeM seed role index = makeM seed' role' index') :
+    seed = seed' ∧ role = role' ∧ index = index' := by
+  unfold makeM at h
+  have h1 := List.append_inj' h (by simp [be32_length])
+  have h2 := List.append_inj h1.1 (by omega)
+  exact ⟨h2.1, be32_inj hr hr' h2.2, be32_inj hi hi' h1.2⟩
+
+/-- test: layout -/
+example : makeM (List.replicate 32 7) 1 2 = List.replicate 32 7 ++ [0, 0, 0, 1] ++ [0, 0, 0, 2] := by decide
+
+/-! ## 4. verifiers bind their inputs -/
+
+section Verify
+variable {SK PK Proof Rand : Type} (V : Vrf SK PK Proof Rand) (cdf : F64 → Nat → F64) (K : List UInt8 → List UInt8)
+
+/-- Acceptance by `VrfVerifySortition` means: the proof verifies under this key for exactly the message
+    `MakeM(seed, role, index)`, the recomputed `choose` of the VRF hash is positive and is the claimed seat count. -/
+theorem verify_binds (pk : PK) (seed : List UInt8) (index role : Nat) (proof : Proof) (sub : Nat) (s : Stakes)
+    (h : verifySortition V cdf pk seed index role proof sub s = .accept) :
+    s.total ≠ 0 ∧ ∃ hash j, V.proofToHash pk (makeM seed role index) proof = some hash ∧
+      choose cdf (natOfBytes hash) s.stake (pOf s.threshold s.total) = .ok j ∧ 0 < j ∧ j % 2 ^ 32 = sub := by
+  unfold verifySortition at h
+  by_cases ht : s.total = 0
+  · simp [ht] at h
+  · simp only [ht, if_false] at h
+    refine ⟨ht, ?_⟩
+    cases hv : V.proofToHash pk (makeM seed role index) proof with
+    | none => simp [hv] at h
+    | some hash =>
+      simp only [hv] at h
+      cases hc : choose cdf (natOfBytes hash) s.stake (pOf s.threshold s.total) with
+      | crash => simp [hc] at h
+      | ok j =>
+        simp only [hc] at h
+        by_cases hj : j = 0
+        · simp [hj] at h
+        · simp only [hj, if_false] at h
+          by_cases hsub : j % 2 ^ 32 ≠ sub
+          · simp [hsub] at h
+          · exact ⟨hash, j, rfl, hc, by omega, by omega⟩
+
+/-- Same for `VrfVerifyPriority`, plus: the priority is exactly `computePriority` of the VRF hash and the seat count.
+    NOTE (code as it exists): no `0 < j` here — see `verifyPriority_accepts_zero_seats`. -/
+theorem verifyPriority_binds (pk : PK) (seed : List UInt8) (index role : Nat) (proof : Proof) (priority : List UInt8)
+    (sub : Nat) (s : Stakes)
+    (h : verifyPriority V cdf K pk seed index role proof priority sub s = .accept) :
+    s.total % 2 ^ 64 ≠ 0 ∧ ∃ hash j, V.proofToHash pk (makeM seed role index) proof = some hash ∧
+      choose cdf (natOfBytes hash) s.stake (pOf s.threshold s.total) = .ok j ∧ j % 2 ^ 32 = sub ∧
+      priority = computePriority K hash j := by
+  unfold verifyPriority at h
+  by_cases ht : s.total % 2 ^ 64 = 0
+  · simp [ht] at h
+  · simp only [ht, if_false] at h
+    refine ⟨ht, ?_⟩
+    cases hv : V.proofToHash pk (makeM seed role index) proof with
+    | none => simp [hv] at h
+    | some hash =>
+      simp only [hv] at h
+      cases hc : choose cdf (natOfBytes hash) s.stake (pOf s.threshold s.total) with
+      | crash => simp [hc] at h
+      | ok j =>
+        simp only [hc] at h
+        by_cases hsub : j % 2 ^ 32 ≠ sub
+        · simp [hsub] at h
+        · simp only [hsub, if_false] at h
+          by_cases hp : computePriority K hash j = priority
+          · exact ⟨hash, j, rfl, hc, by omega, hp.symm⟩
+          · simp [hp] at h
+
+/-- VRF-U (DESIGN section 3): all accepting proofs for one (key, message) yield one hash. -/
+def VrfUnique : Prop :=
+  ∀ pk m π π' h h', V.proofToHash pk m π = some h → V.proofToHash pk m π' = some h' → h = h'
+
+/-- VRF-B (proof binding): a proof accepted for (key, message) is accepted for no other (key, message). -/
+def VrfBinding : Prop :=
+  ∀ pk pk' m m' π h h', V.proofToHash pk m π = some h → V.proofToHash pk' m' π = some h' → pk = pk' ∧ m = m'
+
+/-- completeness of the prover: what `Evaluate` returns verifies to the same value -/
+def VrfComplete : Prop :=
+  ∀ sk m ρ, V.proofToHash (V.pkOf sk) m (V.evaluate sk m ρ).2 = some (V.evaluate sk m ρ).1
+
+/-- Under VRF-U a key holder cannot obtain two different seat counts for one (seed, role, index): whatever proofs it
+    grinds, every accepted credential carries the same seat count (stake < 2^32). -/
+theorem seats_unique (hU : VrfUnique V) (pk : PK) (seed : List UInt8) (index role : Nat) (π π' : Proof) (sub sub' : Nat)
+    (s : Stakes)
+    (h : verifySortition V cdf pk seed index role π sub s = .accept)
+    (h' : verifySortition V cdf pk seed index role π' sub' s = .accept) : sub = sub' := by
+  obtain ⟨_, hash, j, hv, hc, _, hs⟩ := verify_binds V cdf pk seed index role π sub s h
+  obtain ⟨_, hash', j', hv', hc', _, hs'⟩ := verify_binds V cdf pk seed index role π' sub' s h'
+  have := hU pk _ π π' hash hash' hv hv'
+  subst this
+  rw [hc] at hc'
+  injection hc' with hjj
+  omega
+
+/-- Under VRF-B a credential (proof) accepted for (key, seed, index, role, seats) is accepted for no other
+    key, seed, round index, step or seat count. -/
+theorem credential_binds (hB : VrfBinding V) (pk pk' : PK) (seed seed' : List UInt8) (index index' role role' : Nat)
+    (π : Proof) (sub sub' : Nat) (s : Stakes)
+    (hs : seed.length = 32) (hs' : seed'.length = 32)
+    (hr : role < 2 ^ 32) (hr' : role' < 2 ^ 32) (hi : index < 2 ^ 32) (hi' : index' < 2 ^ 32)
+    (h : verifySortition V cdf pk seed index role π sub s = .accept)
+    (h' : verifySortition V cdf pk' seed' index' role' π sub' s = .accept) :
+    pk = pk' ∧ seed = seed' ∧ index = index' ∧ role = role' ∧ sub = sub' := by
+  obtain ⟨_, hash, j, hv, hc, _, hsub⟩ := verify_binds V cdf pk seed index role π sub s h
+  obtain ⟨_, hash', j', hv', hc', _, hsub'⟩ := verify_binds V cdf pk' seed' index' role' π sub' s h'
+  obtain ⟨hpk, hm⟩ := hB pk pk' _ _ π hash hash' hv hv'
+  obtain ⟨e1, e2, e3⟩ := makeM_injective seed seed' role role' index index' hs hs' hr hr' hi hi' hm
+  subst hpk; subst e1; subst e2; subst e3
+  rw [hv] at hv'
+  injection hv' with hh
+  subst hh
+  rw [hc] at hc'
+  injection hc' with hjj
+  exact ⟨rfl, rfl, rfl, rfl, by omega⟩
+
+/-- Prover and verifier agree: a credential produced by `VrfSortition` with a positive seat count is accepted by
+    `VrfVerifySortition` under the prover's public key and the same stake parameters. -/
+theorem prover_verifier_agree (hC : VrfComplete V) (sk : SK) (ρ : Rand) (seed : List UInt8) (index role : Nat) (s : Stakes)
+    (value : List UInt8) (proof : Proof) (sub : Nat)
+    (h : vrfSortition V cdf sk ρ seed index role s = some (value, proof, sub)) (hpos : 0 < sub) :
+    verifySortition V cdf (V.pkOf sk) seed index role proof sub s = .accept := by
+  unfold vrfSortition at h
+  by_cases ht : s.total = 0
+  · simp [ht] at h
+  · simp only [ht, if_false] at h
+    have hc := hC sk (makeM seed role index) ρ
+    cases hch : choose cdf (natOfBytes (V.evaluate sk (makeM seed role index) ρ).1) s.stake (pOf s.threshold s.total) with
+    | crash => simp [hch] at h
+    | ok j =>
+      simp only [hch, Option.some.injEq, Prod.mk.injEq] at h
+      obtain ⟨hval, hproof, hsub⟩ := h
+      unfold verifySortition
+      simp only [ht, if_false]
+      rw [← hproof, hc]
+      simp only [hch]
+      have hj : j ≠ 0 := by
+        intro h0; subst h0; simp at hsub; omega
+      simp [hj, hsub]
+
+/-- … and its priority is accepted by `VrfVerifyPriority` (for any seat count, zero included). -/
+theorem prover_priority_agree (hC : VrfComplete V) (sk : SK) (ρ : Rand) (seed : List UInt8) (index role : Nat) (s : Stakes)
+    (value : List UInt8) (proof : Proof) (sub : Nat) (ht64 : s.total % 2 ^ 64 ≠ 0) (hw : s.stake < 2 ^ 32)
+    (h : vrfSortition V cdf sk ρ seed index role s = some (value, proof, sub)) :
+    verifyPriority V cdf K (V.pkOf sk) seed index role proof (computePriority K value sub) sub s = .accept := by
+  unfold vrfSortition at h
+  have ht : s.total ≠ 0 := by intro h0; rw [h0] at ht64; exact ht64 rfl
+  simp only [ht, if_false] at h
+  have hc := hC sk (makeM seed role index) ρ
+  cases hch : choose cdf (natOfBytes (V.evaluate sk (makeM seed role index) ρ).1) s.stake (pOf s.threshold s.total) with
+  | crash => simp [hch] at h
+  | ok j =>
+    simp only [hch, Option.some.injEq, Prod.mk.injEq] at h
+    obtain ⟨hval, hproof, hsub⟩ := h
+    have hfit := seats_fit_uint32 cdf _ _ _ j hw hch
+    unfold verifyPriority
+    simp only [ht64, if_false]
+    rw [← hproof, hc]
+    simp only [hch]
+    rw [hfit] at hsub
+    subst hsub
+    simp [hfit, hval]
+
+end Verify
+
+/-! ## 5. priority -/
+
+/-- `computePriority hash j` is the largest seat hash over seats `0..j`: it dominates every seat hash, and it is one of
+    them (or the all-zero hash it starts from, which only survives if every seat hash has value 0). -/
+theorem priority_is_max (K : List UInt8 → List UInt8) (hash : List UInt8) (j : Nat) :
+    (∀ t, t ≤ j → natOfBytes (K (hash ++ minBE t)) ≤ natOfBytes (computePriority K hash j)) ∧
+    (computePriority K hash j = zero32 ∨ ∃ t, t ≤ j ∧ computePriority K hash j = K (hash ++ minBE t)) := by
+  have := priorityLoop_spec K hash (j + 1) 0 zero32
+  refine ⟨fun t ht => this.2.1 t (Nat.zero_le _) (by omega), ?_⟩
+  rcases this.2.2 with h | ⟨t, _, h2, h3⟩
+  · exact Or.inl h
+  · exact Or.inr ⟨t, by omega, h3⟩
+
+/-- so a priority that verifies is the largest hash over the claimed seats -/
+theorem verified_priority_is_max {SK PK Proof Rand : Type} (V : Vrf SK PK Proof Rand) (cdf : F64 → Nat → F64)
+    (K : List UInt8 → List UInt8) (pk : PK) (seed : List UInt8) (index role : Nat) (proof : Proof)
+    (priority : List UInt8) (sub : Nat) (s : Stakes)
+    (h : verifyPriority V cdf K pk seed index role proof priority sub s = .accept) :
+    ∃ hash j, V.proofToHash pk (makeM seed role index) proof = some hash ∧ j % 2 ^ 32 = sub ∧
+      (∀ t, t ≤ j → natOfBytes (K (hash ++ minBE t)) ≤ natOfBytes priority) ∧
+      (priority = zero32 ∨ ∃ t, t ≤ j ∧ priority = K (hash ++ minBE t)) := by
+  obtain ⟨_, hash, j, hv, _, hs, hp⟩ := verifyPriority_binds V cdf K pk seed index role proof priority sub s h
+  subst hp
+  exact ⟨hash, j, hv, hs, (priority_is_max K hash j).1, (priority_is_max K hash j).2⟩
+
+/-! ## 6. the code as it exists: a non-winner's priority verifies
+
+`VrfVerifyPriority` has no `j > 0` test (unlike `VrfVerifySortition`), and `computePriority` ranges over `0..j`
+inclusive, so a validator that won ZERO seats holds a priority that verifies (with `subUsers = 0`). The repository's own
+`TestVrfVerifyPriority` relies on it. Stated here as a fact about the model, replayed on the real code by the harness. -/
+
+/-- a trivial VRF whose proof is the hash itself (test instance) -/
+def idVrf : Vrf Unit Unit (List UInt8) Unit :=
+  { pkOf := id, evaluate := fun _ _ _ => (zero32, zero32), proofToHash := fun _ _ π => some π }
+
+/-- test instance: hash 0 wins zero seats, `VrfVerifySortition` refuses it, `VrfVerifyPriority` accepts its priority -/
+theorem verifyPriority_accepts_zero_seats :
+    ∃ (cdf : F64 → Nat → F64) (K : List UInt8 → List UInt8) (s : Stakes) (priority : List UInt8),
+      choose cdf (natOfBytes zero32) s.stake (pOf s.threshold s.total) = .ok 0 ∧
+      verifySortition idVrf cdf () zero32 0 1 zero32 0 s = .notValidator ∧
+      verifyPriority idVrf cdf K () zero32 0 1 zero32 priority 0 s = .accept := by
+  refine ⟨fun _ _ => f64One, fun _ => zero32, ⟨26, 10, 1000⟩, zero32, ?_, ?_, ?_⟩
+  · exact (choose_ends _ _ _).2
+  · have h0 : natOfBytes zero32 = 0 := natOfBytes_zero32
+    unfold verifySortition
+    simp only [idVrf, h0, (choose_ends _ _ _).2]
+    decide
+  · have h0 : natOfBytes zero32 = 0 := natOfBytes_zero32
+    unfold verifyPriority
+    simp only [idVrf, h0, (choose_ends _ _ _).2]
+    decide
 
 end YouVerif.C04.Props
